@@ -284,7 +284,8 @@ def r1s_format_concat(text):
             pos = q
             continue
         fmt, argtxt = mo.group(1), mo.group(2)
-        if not re.fullmatch(r'(?:[^{}]|\{\d+\})*', fmt) or '{' not in fmt:
+        # only key-material style strings (placeholders joined by punctuation); diagnostics with words stay opaque (R1)
+        if not re.fullmatch(r'(?:[^{}A-Za-z]|\{\d+\})*', fmt) or '{' not in fmt:
             pos = q
             continue
         am = mask(argtxt)
